@@ -58,6 +58,10 @@ MUTANTS = [  # (contract module, qualname, file, regex, replacement, expect)  ex
  ("contracts.c11", "HillClimbSearch.estimate", "pgmpy/estimators/HillClimbSearch.py", r"            if not nx.is_directed_acyclic_graph\(start_dag\):", "            if False:", "break"),
  ("contracts.c11", "HillClimbSearch.estimate", "pgmpy/estimators/HillClimbSearch.py", r"                key=lambda t: t\[1\],", "                key=lambda t: -t[1],", "break"),
  ("contracts.c11", "HillClimbSearch.estimate", "pgmpy/estimators/HillClimbSearch.py", r'                tabu_list.append\(\("-", best_operation\[1\]\)\)', '                tabu_list.append(("-", best_operation[1])); last_added = best_operation[1]', "hold"),
+ ("contracts.c01", "Inference._prune_bayesian_model", "pgmpy/inference/base.py", r"variables=variables, observed=list\(evidence.keys\(\)\), include_latents=True", "variables=variables, include_latents=True", "break"),
+ ("contracts.c01", "Inference._prune_bayesian_model", "pgmpy/inference/base.py", r"d_connected = set.union\(\*d_connected.values\(\)\).union\(evidence.keys\(\)\)", "d_connected = set.union(*d_connected.values())", "break"),
+ ("contracts.c01", "Inference._prune_bayesian_model", "pgmpy/inference/base.py", r"bn = bn.get_ancestral_graph\(list\(variables\) \+ list\(evidence.keys\(\)\)\)", "bn = bn.get_ancestral_graph(list(variables))", "break"),
+ ("contracts.c01", "Inference._prune_bayesian_model", "pgmpy/inference/base.py", r"        bn = self.model.subgraph\(d_connected\)\n        evidence = ", "        reachable = d_connected\n        bn = self.model.subgraph(reachable)\n        evidence = ", "hold"),
 ]
 
 
